@@ -16,7 +16,8 @@ of the modelled functions is a partial operation of the model):
 
 The other decoders of the library (BGZF, BAM record layout, SAM line/header text, binary header,
 index readers, FAI, CRAM) are covered by the panic-site inventory + search only; see
-notes/reports/C11.md.
+notes/reports/C11.md.  (Later rounds added most of them below; CRAM definition/container/block/slice/
+Block.Value: extension round 4.)
 -/
 import Hts.Lemmas.Decoders
 import Hts.Lemmas.DecodersIndex
@@ -26,6 +27,7 @@ import Hts.Lemmas.DecodersSam
 import Hts.Lemmas.DecodersCsi
 import Hts.Lemmas.DecodersFai
 import Hts.Lemmas.DecodersBgzf
+import Hts.Lemmas.CramDec
 import Hts.Props.C07
 namespace Hts.Props.C11
 open Hts.Model.Decoders
@@ -337,6 +339,105 @@ theorem bgzfReadLimited_total (extra : Option Bytes) (blockSize skipped : Nat)
     (readLimitedIdx blockSize skipped).isPanic = false :=
   readLimitedIdx_total extra blockSize skipped h
 
+/-! ### CRAM readers (Hts.Model.CramDec): file definition, container header, block, slice header, Block.Value
+
+Explicit-indexing models WITH values (tied to the code field by field by the `c11.model` stream:
+c11.cramdef / c11.cramcont / c11.cramblock / c11.cramvalue).  `hash/crc32` is a parameter: the theorems
+hold for every function in its place. -/
+
+open Hts.Model.CramDec in
+/-- `errorReader.itf8` and `errorReader.ltf8` with the values they return: for every reader state (bytes
+left, sticky error set or not) a value comes back — `buf[1:n]`, `buf[:n]` stay inside the 5- resp. 9-byte
+array — and it is an `int32` resp. `int64` -/
+theorem cramNum_total (r : St) :
+    (∃ r' v, readNum itf8Dec r = ok (r', v) ∧ -2147483648 ≤ v ∧ v < 2147483648) ∧
+    (∃ r' v, readNum ltf8Dec r = ok (r', v) ∧ -9223372036854775808 ≤ v ∧ v < 9223372036854775808) :=
+  ⟨readNum_spec _ _ _ itf8Dec_good r, readNum_spec _ _ _ ltf8Dec_good r⟩
+
+open Hts.Model.CramDec in
+/-- `errorReader.itf8slice` never panics and always returns (an error only sets the sticky flag): a
+negative count is refused before `make` (fix C11-14), `s[i]` and `s[:i]` stay inside the `n` elements, and
+the loop ends after at most `n` iterations -/
+theorem cramItf8slice_total (r : St) : (readSlice32 r).isPanic = false := by
+  obtain ⟨r', l, h⟩ := readSlice32_spec r
+  rw [h]; rfl
+
+open Hts.Model.CramDec in
+/-- what bounds `make([]int32, n)` in `itf8slice`: only the type.  When `make` is reached, `0 < n < 2^31`;
+nothing relates `n` to the number of bytes present (the second part: five bytes ask for 2^31-1 elements
+= 8 GiB; this is the "asks for memory" outcome, which C11 counts separately from panics) -/
+theorem cramItf8slice_make_bound (r : St) (r' : St) (n : Nat) (h : sliceCount r = ok (r', some n)) :
+    0 < n ∧ n < 2147483648 := by
+  obtain ⟨r1, o, h1, hb⟩ := sliceCount_spec r
+  rw [h1] at h
+  cases h
+  exact hb n rfl
+
+open Hts.Model.CramDec in
+theorem cramItf8slice_make_unbounded :
+    (match sliceCount { src := [0xf7, 0xff, 0xff, 0xff, 0xff] } with | ok (_, o) => o | _ => none) =
+      some 2147483647 := by decide
+
+open Hts.Model.CramDec in
+/-- `definition.readFrom` (through `NewReader`): a definition or an error for every byte string -/
+theorem cramDefinition_total (s : Bytes) : (readDefinition s).isPanic = false := readDefinition_total' s
+
+open Hts.Model.CramDec in
+/-- `Container.readFrom` never panics, for every byte string and every CRC function: the length word, the
+seven ITF-8/LTF-8 fields, the landmark array with any count (negative, zero, larger than what follows)
+and the CRC32 word -/
+theorem cramContainer_total (crc32 : Bytes → Nat) (s : Bytes) : (readContainer crc32 s).isPanic = false :=
+  readContainer_total' crc32 s
+
+open Hts.Model.CramDec in
+/-- `Block.readFrom` never panics, for every byte string and every CRC function: a negative compressed
+size is refused before `make` (fix C11-14); a block that is returned holds exactly `compressedSize`
+bytes of data, all of them read from the input -/
+theorem cramBlock_total (crc32 : Bytes → Nat) (s : Bytes) :
+    (readBlock crc32 s).isPanic = false ∧
+    ∀ b rest, readBlock crc32 s = ok (b, rest) → (b.data.length : Int) = b.compressedSize := by
+  rcases readBlock_spec crc32 s with h | ⟨b, rest, h, hl, _⟩
+  · rw [h]; exact ⟨rfl, fun _ _ h' => by cases h'⟩
+  · rw [h]; exact ⟨rfl, fun _ _ h' => by cases h'; exact hl⟩
+
+open Hts.Model.CramDec in
+/-- what bounds `make([]byte, b.compressedSize)` in `Block.readFrom`: when `make` is reached,
+`0 ≤ compressedSize < 2^31` (and `= rawSize` for the raw method); the allocation happens BEFORE the data is
+known to be present (second part: a 12-byte input asks for 2^31-1 bytes — "asks for memory") -/
+theorem cramBlock_make_bound (s : Bytes) (r : St) (h : BlockHdr) (hh : blockHeader s = ok (r, h)) :
+    0 ≤ h.compressedSize ∧ h.compressedSize < 2147483648 ∧ (h.method = 0 → h.compressedSize = h.rawSize) := by
+  rcases blockHeader_spec s with h' | ⟨r', hd, h', hb⟩
+  · rw [h'] at hh; cases hh
+  · rw [h'] at hh; cases hh; exact hb
+
+open Hts.Model.CramDec in
+theorem cramBlock_make_unbounded :
+    (match blockHeader [4, 4, 0, 0xf7, 0xff, 0xff, 0xff, 0xff, 0, 0, 0, 0] with
+      | ok (_, h) => some h.compressedSize | _ => none) = some 2147483647 := by decide
+
+open Hts.Model.CramDec in
+/-- `Slice.readFrom` (called by `Block.Value` on the data of a mapped slice header block) always yields a
+slice header value, complete or not (`Block.Value` drops its error) -/
+theorem cramSlice_total (s : Bytes) : ∃ h, readSliceHdr s = ok h := readSliceHdr_spec s
+
+open Hts.Model.CramDec in
+/-- `Block.Value` (with `expandBlockdata` and `Slice.readFrom`) never panics, for every block and every
+behaviour of the decompressors that yields less than 4 GiB: `blockData[:4]`, `Uint32(blockData[:4])` and
+`blockData[4 : 4+end]` are in range (fix C11-15: `uint64(end) > uint64(len(blockData)-4)` is an error;
+`4+end` is computed in `uint32`, which cannot wrap below 2^32 bytes), an unknown method is an error (fix
+C11-16).  A raw block (`method = 0`) needs no hypothesis beyond `Block.readFrom`'s own bound. -/
+theorem cramBlockValue_total (X : Expanders) (b : Block)
+    (hX : ∀ m d e, X.expand m d = some e → e.length < 4294967296) (hb : b.data.length < 4294967296) :
+    (blockValue X b).isPanic = false := blockValue_total' X b hX hb
+
+open Hts.Model.CramDec in
+/-- every block `Block.readFrom` returns satisfies the size hypothesis of `cramBlockValue_total` -/
+theorem cramBlock_value_ready (crc32 : Bytes → Nat) (s : Bytes) (b : Block) (rest : Bytes)
+    (h : readBlock crc32 s = ok (b, rest)) : b.data.length < 4294967296 := by
+  rcases readBlock_spec crc32 s with h' | ⟨b', rest', h', hl, hu⟩
+  · rw [h'] at h; cases h
+  · rw [h'] at h; cases h; omega
+
 /-! ### non-vacuity (tests) -/
 
 /-- a parser instance: decimal digits only -/
@@ -398,5 +499,32 @@ example : (addRef ⟨1, [([97], 0)]⟩ [97] false true true).isPanic = false := 
 -- "@HD\tV" : a field shorter than three bytes is an error of the field loop
 example : tagLine 2 (fun (st : Unit) _ _ => ok st) [64, 72, 68, 9, 86] () = err := by decide
 example : md5Field (List.replicate 34 48) = err := by decide
+
+-- CRAM: "CRAM" 3 0 + 20 id bytes + 1 byte left over; wrong magic and a short definition are errors
+example : Hts.Model.CramDec.readDefinition ([67, 82, 65, 77, 3, 0] ++ List.replicate 20 7 ++ [9]) =
+    ok (⟨[67, 82, 65, 77], [3, 0], List.replicate 20 7⟩, [9]) := by decide
+example : Hts.Model.CramDec.readDefinition ([67, 82, 65, 78, 3, 0] ++ List.replicate 20 7) = err := by decide
+example : Hts.Model.CramDec.readDefinition (List.replicate 25 67) = err := by decide
+-- a block: method 0, type 5, content id 6, sizes 2/2, data "hi", CRC (here the constant function 0x01020304)
+example : Hts.Model.CramDec.readBlock (fun _ => 0x01020304) [0, 5, 6, 2, 2, 104, 105, 4, 3, 2, 1, 77] =
+    ok ({ method := 0, typ := 5, contentID := 6, compressedSize := 2, rawSize := 2, data := [104, 105], crc32 := 0x01020304 }, [77]) := by decide
+-- compressed size -1 (ff ff ff ff 0f): an error, not a makeslice panic; raw method with sizes 2/3: error
+example : Hts.Model.CramDec.readBlock (fun _ => 0) [1, 5, 6, 0xff, 0xff, 0xff, 0xff, 0x0f, 2, 0, 0, 0, 0] = err := by decide
+example : Hts.Model.CramDec.readBlock (fun _ => 0) [0, 5, 6, 2, 3, 104, 105, 0, 0, 0, 0] = err := by decide
+-- a container header: length 7, refID -1 (ff ff ff ff 0f), 0 0 0 | 0 0 | 1 block | landmarks [5, 300] | CRC
+example : Hts.Model.CramDec.readContainer (fun _ => 0) [7, 0, 0, 0, 0xff, 0xff, 0xff, 0xff, 0x0f, 0, 0, 0, 0, 0, 1, 2, 5, 0x81, 0x2c, 0, 0, 0, 0, 42] =
+    ok ({ blockLen := 7, refID := -1, start := 0, span := 0, nRec := 0, recCount := 0, bases := 0, blocks := 1,
+          landmarks := [5, 300], crc32 := 0 }, [42]) := by decide
+-- landmark count -1: error; count 3 with two numbers present: error (the stream ends)
+example : Hts.Model.CramDec.readContainer (fun _ => 0) [7, 0, 0, 0, 0, 0, 0, 0, 0, 0, 1, 0xff, 0xff, 0xff, 0xff, 0x0f, 0, 0, 0, 0] = err := by decide
+example : Hts.Model.CramDec.readContainer (fun _ => 0) [7, 0, 0, 0, 0, 0, 0, 0, 0, 0, 1, 3, 5, 6] = err := by decide
+-- file header block: l_text 2 + "@C" is handed to UnmarshalText; l_text -1 (fix C11-15) and 3 bytes are errors
+example : Hts.Model.CramDec.blockValue ⟨fun _ _ => none⟩
+    { method := 0, typ := 0, contentID := 0, compressedSize := 6, rawSize := 6, data := [2, 0, 0, 0, 64, 67], crc32 := 0 } =
+    ok (.headerText [64, 67]) := by decide
+example : Hts.Model.CramDec.blockValue ⟨fun _ _ => none⟩
+    { method := 0, typ := 0, contentID := 0, compressedSize := 6, rawSize := 6, data := [0xff, 0xff, 0xff, 0xff, 64, 67], crc32 := 0 } = err := by decide
+example : Hts.Model.CramDec.blockValue ⟨fun _ _ => none⟩
+    { method := 9, typ := 0, contentID := 0, compressedSize := 0, rawSize := 0, data := [], crc32 := 0 } = err := by decide
 
 end Hts.Props.C11
